@@ -70,6 +70,39 @@ def fetchSubseq (a : Ascii) (ssi : Ssi) (sq : Sq) (source : Bytes) (start end_ :
     let nm := source ++ #[47] ++ decBytes start ++ #[45] ++ decBytes end_
     (a, { sq with start := start, end_ := end_, C := 0, W := sq.n, L := if len > 0 then len else -1, name := nm, source := source }, .ok)
 
+/-- the copy loop of `sqascii_Echo`: whole buffers while `boff + nc ≤ eoff` -/
+def echoLoop : Nat → Ascii → Int → Bytes → Ascii × Bytes × Status
+  | 0, a, _, out => (a, out, .fault)
+  | fuel + 1, a, eoff, out =>
+    if a.boff + a.nc ≤ eoff then
+      let chunk := if a.linebased then a.line.extract 0 a.nc else a.file.extract a.boff.toNat (a.boff.toNat + a.nc)
+      let (a, st) := loadbuf a
+      if st != .ok then (a.raise, out ++ chunk, .ecorrupt) else echoLoop fuel a eoff (out ++ chunk)
+    else (a, out, .ok)
+
+/-- `sqascii_Echo()`: the bytes `roff..eoff` of the file, re-read through the block loader; the handle is left positioned at
+    `roff` with its bookkeeping restored -/
+def echo (a : Ascii) (sq : Sq) : Ascii × Status × Bytes :=
+  if sq.roff == -1 || sq.eoff == -1 then (a.raise, .einval, #[]) else
+  let saveLn := a.linenumber
+  let saveTrk := a.trk
+  let saveL := a.L
+  let (a, st) := position a sq.roff.toNat
+  if st == .eof then (a.raise, .ecorrupt, #[]) else
+  if st != .ok then (a, st, #[]) else
+  let (a, out, st) := echoLoop (fuelOf a) a sq.eoff #[]
+  if st != .ok then (a, st, out) else
+  let n := sq.eoff - a.boff + 1
+  if n < 0 || n > a.nc then (a, .fault, out) else
+  let chunk := if a.linebased then a.line.extract 0 n.toNat else a.file.extract a.boff.toNat (a.boff.toNat + n.toNat)
+  let out := out ++ chunk
+  let (a, st) := position a sq.roff.toNat
+  if st == .eof then (a.raise, .ecorrupt, out) else
+  if st != .ok then (a, st, out) else
+  ({ a with linenumber := saveLn, L := saveL,
+            trk := { a.trk with currpl := saveTrk.currpl, curbpl := saveTrk.curbpl, prvrpl := saveTrk.prvrpl, prvbpl := saveTrk.prvbpl } },
+   .ok, out)
+
 /-- `create_ssi_index()` of `esl-sfetch`: scan with `ReadInfo`, one primary key per record, accession as alias.
     Returns `none` when the scan ends in anything but EOF (the tool then dies with a message). -/
 def buildIndexLoop : Nat → Ascii → Ssi → Option (Ascii × Ssi)
